@@ -48,6 +48,23 @@ Definition step_op (op : list tok) : list tok :=
       match args with
       | _ :: sizes => let len := sum_toks (map (fun t => match t with TN z => TN (z / 65536) | _ => t end) sizes) in res_toks len (tcp_writev len [KWrote (Nat.div len 2)])
       | _ => [TS "badop"] end
+    else if name =? "tlsnew" then []
+    else if name =? "tlswrite" then
+      (* peer drains: the plain loop offers the rest again after every flush until all is taken *)
+      match args with
+      | TN n :: _ => [TS "all"; TS "Continue"]
+      | _ => [TS "badop"] end
+    else if name =? "tlswritev" then
+      (* tlswritev <limit> <seed> <n>.. : first call takes min(total, limit) and answers Continue;
+         the caller's retry loop takes the rest *)
+      match args with
+      | TN lim :: _ :: sizes =>
+        let total := Nat.div (sum_toks sizes) 256 in
+        let l := Nat.div (Z.to_nat lim) 256 in
+        let t := mkTls 0 (if Nat.eqb l 0 then None else Some l) 0 in
+        let '(b, st, _, _) := tls_writev 50 total t (repeat (KWrote 100000) 40) in
+        [TS (if Nat.eqb b total then "all" else "partial"); TS (sres_name st); TS "all"]
+      | _ => [TS "badop"] end
     else if name =? "h2conv" then
       (* h2conv <max> <ended> <seed> W <w>.. C <n>.. : per round "R <window after> <payload len>.. [E]", then "L <left>.." *)
       match args with
